@@ -17,6 +17,15 @@ Theorem C02_load_spec : forall (p : profile) (a : N) (bs : list byte),
 Proof. exact c02_load_spec. Qed.
 Print Assumptions C02_load_spec.
 
+(* the same rule for a pointer that is NOT 8-aligned: never a structure, never a panic, and nothing beyond the 8 header
+   bytes is read (the hypothesis asks for no more valid memory than that) *)
+Theorem C02_misaligned : forall (p : profile) (a : N) (bs : list byte),
+  a mod 8 <> 0 -> 8 <= len bs ->
+  mbi_load p false {| m_base := a; m_bytes := bs |} =
+    if le (slice bs 0 4) <? 8 then Err EShorterThanHeader else Err EWrongAlignment.
+Proof. exact c02_misaligned. Qed.
+Print Assumptions C02_misaligned.
+
 Theorem C02_null : forall p m, mbi_load p true m = Err ENull.
 Proof. exact c02_null. Qed.
 Print Assumptions C02_null.
